@@ -97,6 +97,11 @@ CHECKS = {
    "Exhaustive per stream for truncations; substitution values are sampled except where noted; the streams themselves are sampled.",
    "fault enumeration (all cut points, all positions x several values) over rapid-generated streams; oracle = original data/records",
    "DESIGN.md 3/C10"),
+ "C18": ("exploration",
+   "Generated-input search: 1..4 generated BAM inputs (some empty) with equal, disjoint and overlapping reference lists whose header order differs from name order, in each declared order (unknown with nil or custom less, unsorted, queryname, coordinate), each input sorted in that order, records tagged with (input, ordinal) and mates on other references, optionally one input truncated inside its last block; oracle = multiset equality with the inputs, sortedness under the declared order (coordinate = merged header order, unplaced last), per-input order preserved, concatenation for unsorted, every Ref/MateRef pointer-identical to a reference of Merger.Header() with the source name, io.EOF only after clean ends and an error reported for the damaged input; watchdog and a 64 MiB stack limit turn hangs and unbounded recursion into attributable failures.",
+   "The merged header's reference order is modelled from MergeHeaders' documented behaviour.",
+   "property-based testing (rapid): reference model (multiset + order predicates) over generated inputs with fault injection by truncation",
+   "DESIGN.md 3/C18"),
 }
 
 NOT_YET = {}
